@@ -47,52 +47,65 @@ VisDocs(cx, k) ==
 
 RepoAtom(q) == q.k \in {"repo", "ids", "set"}
 
-RECURSIVE Match(_, _, _), Fold(_, _, _), ListAnswer(_, _, _), ReposMatching(_, _)
+RECURSIVE SetToSeq(_)
+SetToSeq(S) == IF S = {} THEN <<>>
+               ELSE LET m == CHOOSE x \in S : \A y \in S : x <= y IN <<m>> \o SetToSeq(S \ {m})
 
-\* does document d satisfy q
-Match(q, d, cx) ==
+\* does document d satisfy q (q without type:repo nodes, see Resolve)
+RECURSIVE Match(_, _)
+Match(q, d) ==
   CASE q.k = "true"  -> TRUE
     [] q.k = "false" -> FALSE
     [] q.k = "sub"   -> q.w \in d.words
     [] q.k = "fname" -> q.w = d.name
     [] RepoAtom(q)   -> d.id \in ToSet(q.s)
-    [] q.k = "and"   -> \A i \in DOMAIN q.c : Match(q.c[i], d, cx)
-    [] q.k = "or"    -> \E i \in DOMAIN q.c : Match(q.c[i], d, cx)
-    [] q.k = "not"   -> ~Match(q.c[1], d, cx)
-    [] q.k = "trepo" -> d.id \in ReposMatching(q.c[1], cx)
+    [] q.k = "and"   -> \A i \in DOMAIN q.c : Match(q.c[i], d)
+    [] q.k = "or"    -> \E i \in DOMAIN q.c : Match(q.c[i], d)
+    [] q.k = "not"   -> ~Match(q.c[1], d)
 
-\* constant folding against the live repositories of shard k (index/eval.go simplify +
-\* query.Simplify): "T" every live repository satisfies, "F" none, "U" undecided
+\* constant folding against the live repositories (index/eval.go simplify + query.Simplify):
+\* "T" every live repository satisfies, "F" none, "U" undecided
 FoldSet(S, live) == IF Cardinality(S \cap live) = Cardinality(live) THEN "T"
                     ELSE IF S \cap live # {} THEN "U" ELSE "F"
-Fold(q, k, cx) ==
+RECURSIVE Fold(_, _)
+Fold(q, live) ==
   CASE q.k = "true"  -> "T"
     [] q.k = "false" -> "F"
     [] q.k \in {"sub", "fname"} -> "U"
-    [] RepoAtom(q)   -> FoldSet(ToSet(q.s), LiveOf(cx, k))
-    [] q.k = "trepo" -> FoldSet(ReposMatching(q.c[1], cx), LiveOf(cx, k))
-    [] q.k = "and"   -> LET fs == {Fold(q.c[i], k, cx) : i \in DOMAIN q.c}
+    [] RepoAtom(q)   -> FoldSet(ToSet(q.s), live)
+    [] q.k = "and"   -> LET fs == {Fold(q.c[i], live) : i \in DOMAIN q.c}
                         IN IF "F" \in fs THEN "F" ELSE IF "U" \in fs THEN "U" ELSE "T"
-    [] q.k = "or"    -> LET fs == {Fold(q.c[i], k, cx) : i \in DOMAIN q.c}
+    [] q.k = "or"    -> LET fs == {Fold(q.c[i], live) : i \in DOMAIN q.c}
                         IN IF "T" \in fs THEN "T" ELSE IF "U" \in fs THEN "U" ELSE "F"
-    [] q.k = "not"   -> LET f == Fold(q.c[1], k, cx)
+    [] q.k = "not"   -> LET f == Fold(q.c[1], live)
                         IN IF f = "T" THEN "F" ELSE IF f = "F" THEN "T" ELSE "U"
 
-\* files a search over shard k returns
-Answer(q, k, cx) == {<<d.id, d.name>> : d \in {d \in VisDocs(cx, k) : Match(q, d, cx)}}
+\* files a search over shard k returns (q resolved)
+AnswerR(q, k, cx) == {<<d.id, d.name>> : d \in {d \in VisDocs(cx, k) : Match(q, d)}}
 
-\* repositories List(q) over shard k returns (Appendix A.16)
-ListAnswer(q, k, cx) ==
-  LET f == Fold(q, k, cx)
+\* repositories List(q) over shard k returns (Appendix A.16; q resolved)
+ListAnswerR(q, k, cx) ==
+  LET f == Fold(q, LiveOf(cx, k))
   IN IF f = "T" THEN LiveOf(cx, k)
      ELSE IF f = "F" THEN {}
-     ELSE {d.id : d \in {d \in VisDocs(cx, k) : Match(q, d, cx)}}
+     ELSE {d.id : d \in {d \in VisDocs(cx, k) : Match(q, d)}}
 
-\* type:repo is evaluated by the directory searcher with a List over all shards
-ReposMatching(q, cx) == UNION {ListAnswer(q, k, cx) : k \in DOMAIN cx.D}
+\* type:repo(c) is evaluated first by the directory searcher: a List of c over all shards,
+\* the node becomes the set of repositories listed (search/eval.go typeRepoSearcher)
+RECURSIVE Resolve(_, _)
+Resolve(q, cx) ==
+  IF q.k = "trepo"
+  THEN LET c == Resolve(q.c[1], cx)
+       IN [k |-> "set", w |-> "", c |-> <<>>,
+           s |-> SetToSeq(UNION {ListAnswerR(c, k, cx) : k \in DOMAIN cx.D})]
+  ELSE IF q.k \in {"and", "or", "not"}
+  THEN [q EXCEPT !.c = [i \in DOMAIN q.c |-> Resolve(q.c[i], cx)]]
+  ELSE q
 
-DirAnswer(q, cx) == UNION {Answer(q, k, cx) : k \in DOMAIN cx.D}
-DirList(q, cx)   == UNION {ListAnswer(q, k, cx) : k \in DOMAIN cx.D}
+Answer(q, k, cx)     == AnswerR(Resolve(q, cx), k, cx)
+ListAnswer(q, k, cx) == ListAnswerR(Resolve(q, cx), k, cx)
+DirAnswer(q, cx) == LET r == Resolve(q, cx) IN UNION {AnswerR(r, k, cx) : k \in DOMAIN cx.D}
+DirList(q, cx)   == LET r == Resolve(q, cx) IN UNION {ListAnswerR(r, k, cx) : k \in DOMAIN cx.D}
 
 \* every (id, name) hidden in shard k: of a tombstoned repository or a tombstoned path
 AllDocs(cx, k) == UNION {{<<cx.D[k].repos[r].id, cx.D[k].repos[r].docs[i].name>>
